@@ -2372,7 +2372,10 @@ bool NifFile::GetNodeTransformToGlobal(const std::string& nodeName, MatTransform
 
 		MatTransform xform = node->GetTransformToParent();
 		NiNode* parent = GetParentNode(node);
-		while (parent) {
+
+		// A parent chain can't be longer than the block count. Stops on cyclic child references.
+		size_t depth = 0;
+		while (parent && depth++ < blocks.size()) {
 			xform = parent->GetTransformToParent().ComposeTransforms(xform);
 			parent = GetParentNode(parent);
 		}
